@@ -532,5 +532,5 @@ producer_ext_cases = st.builds(
 
 
 def main(chk: Check) -> None:
-    chk.explore("caps", cases, run_case, quick=450, thorough=10000)
-    chk.explore("producer_ext", producer_ext_cases, run_case, quick=150, thorough=3000)
+    chk.explore("caps", cases, run_case, quick=900, thorough=10000)
+    chk.explore("producer_ext", producer_ext_cases, run_case, quick=300, thorough=3000)
